@@ -20,6 +20,9 @@ pub enum Style {
     AngleSel(u8),
     /// `<mut v:X>` on every symbol, user action that moves them
     Mut,
+    /// every symbol named (tuple patterns for tuple-valued children), user action over `<>`
+    /// (= all the named bindings, in order)
+    NamedAngle,
     /// no action; the symbol at this position is selected with `<X>` (must be a nonterminal)
     DefaultSel(u8),
     /// no action, a single nonterminal symbol, no angle brackets
@@ -95,7 +98,7 @@ impl DG {
         if rhs.len() >= 3 {
             m.push(Style::AngleSel(0b101));
         }
-        m.extend([Style::AngleAll, Style::Anon, Style::Mut]);
+        m.extend([Style::AngleAll, Style::Anon, Style::Mut, Style::NamedAngle]);
         if with_fallible {
             m.push(Style::Fallible);
         }
@@ -150,7 +153,7 @@ impl DG {
         let id = self.alt_id(n, ai);
         let mut items: Vec<String> = vec![];
         let mut names: Vec<String> = vec![];
-        let named = matches!(d.style, Style::Named | Style::Fallible | Style::Mut);
+        let named = matches!(d.style, Style::Named | Style::Fallible | Style::Mut | Style::NamedAngle);
         let mut mk = 0;
         for gap in 0..=rhs.len() {
             for (g, is_l) in &d.marks {
@@ -174,12 +177,12 @@ impl DG {
                     _ => None,
                 };
                 match d.style {
-                    Style::Named | Style::Fallible if tuple_arity.is_some() => {
+                    Style::Named | Style::Fallible | Style::NamedAngle if tuple_arity.is_some() => {
                         let parts: Vec<String> = (0..tuple_arity.unwrap()).map(|k| format!("t{}_{}", gap, k)).collect();
                         items.push(format!("<({}):{}>", parts.join(", "), st));
                         names.push(format!("({})", parts.join(", ")));
                     }
-                    Style::Named | Style::Fallible => {
+                    Style::Named | Style::Fallible | Style::NamedAngle => {
                         let nm = format!("v{}", gap);
                         items.push(format!("<{}:{}>", nm, st));
                         names.push(nm);
@@ -216,7 +219,9 @@ impl DG {
                 format!("{} => {{ log({}); {}V::n({}, {}) }}", body, id, touch, id, vec_of(&names))
             }
             Style::Anon => format!("{} => {{ log({}); V::n({}, vec![]) }}", body, id, id),
-            Style::AngleAll | Style::AngleSel(_) => format!("{} => {{ log({}); V::n({}, (<>).vs()) }}", body, id, id),
+            // `vs![..]` converts each expression of the `<>` expansion separately, so a single
+            // tuple-valued symbol is not confused with several symbols
+            Style::AngleAll | Style::AngleSel(_) | Style::NamedAngle => format!("{} => {{ log({}); V::n({}, vs![<>]) }}", body, id, id),
             Style::DefaultSel(_) | Style::DefaultOnly => body,
             Style::Fallible => format!(
                 "{} =>? {{ log({}); let vs: Vec<V> = {}; if vs.iter().any(|v| v.is_mark()) {{ Err(ParseError::User {{ error: \"act{}\".to_string() }}) }} else {{ Ok(V::n({}, vs)) }} }}",
@@ -461,7 +466,7 @@ impl<'a> Ev<'a> {
             }
         }
         match d.style {
-            Style::Named | Style::Mut | Style::AngleAll => {
+            Style::Named | Style::Mut | Style::AngleAll | Style::NamedAngle => {
                 self.log.push(id);
                 Some(Val::N(id, items))
             }
@@ -533,6 +538,7 @@ impl ToV for () { fn v(self) -> V { V::N(903, vec![]) } }
 impl<A: ToV, B: ToV> ToV for (A, B) { fn v(self) -> V { V::N(904, vec![self.0.v(), self.1.v()]) } }
 impl<A: ToV, B: ToV, C: ToV> ToV for (A, B, C) { fn v(self) -> V { V::N(905, vec![self.0.v(), self.1.v(), self.2.v()]) } }
 impl ToV for lalrpop_util::ErrorRecovery<usize, Tok, String> { fn v(self) -> V { V::N(906, self.dropped_tokens.into_iter().map(|(_, t, _)| V::T(t)).collect()) } }
+macro_rules! vs { ($($x:expr),* $(,)?) => { { let v: Vec<V> = vec![$(ToV::v($x)),*]; v } } }
 pub trait Vs { fn vs(self) -> Vec<V>; }
 impl Vs for () { fn vs(self) -> Vec<V> { vec![] } }
 impl Vs for V { fn vs(self) -> Vec<V> { vec![self] } }
